@@ -132,10 +132,11 @@ theorem C07_av1_mono_counterexample :
 
 /-! ### `uvlc()` outside the well-formed range (32 or more leading zeros, value 2^32 − 1) -/
 
-/-- 32 leading zeros: the syntax has no value bits, the code skips 32 further bits (so the rest
-    of the header is read 32 bits too late, or parsing fails if fewer than 32 bits follow) -/
+/-- 32 leading zeros: the syntax has no value bits and the code reads none, so the rest of the header is
+    read in place (before the repair in /repo the code skipped 32 further bits: found by the certified
+    reader of Spec.Av1Decode through C19's av1C-vs-configOBUs facet) -/
 theorem C07_av1_uvlc_z32 (x : Nat) (rest : Bits) :
-    skipUvlc (encodeUvlc ⟨32, x⟩ ++ rest) = skipBits 32 rest ∧ encodeUvlc ⟨32, x⟩ =
+    skipUvlc (encodeUvlc ⟨32, x⟩ ++ rest) = some rest ∧ encodeUvlc ⟨32, x⟩ =
       List.replicate 32 false ++ [true] := by
   refine ⟨skipUvlc_z32 x rest, ?_⟩
   simp [encodeUvlc]
